@@ -9,19 +9,30 @@
   list as the assembler and linker produce it — `deserialize (serialize o) = some o`: the whole reader pipeline
   (`trim`, `str::lines`, comment/blank-line filters, grouping, the `.TEXT` block reader, four-digit hex and decimal
   fields, `????` for uninitialised words) inverts the writer.
-  Not proved: the symbol, linker-info and debug tables (padding, `splitn`, trimming, sorting of rows) and hence the
-  round trip of files *with* a symbol table; these are exercised by the correspondence check: the model's writer is
-  compared byte for byte with the implementation's and both readers must return the original object file.
+  Session 5, later (`Txt.sym_section_roundtrip`, Lemmas/TxtSym): for every object file WITH a symbol table and no line
+  table — any blocks as above, any label and relocation tables with unique names / addresses whose names contain no
+  white space and no bar and do not start like a comment, section header or divider (`SymOk`; positions below 2^64) —
+  `deserialize (serialize o)` is `o` with the label and relocation tables in the writer's canonical row order (the
+  implementation keeps them in hash maps, so order is not observable there): padding, `splitn(" | ")`, trimming, the
+  three row shapes, the sorted rows, the two-pass reconstruction of the label table (addresses and flags from `.SYMBOL`,
+  source positions from the index table of `.DEBUG`), the divider search and the comment / blank-line filters.
+  Not proved: the line table of `.DEBUG` (files assembled with debug symbols: line numbers, `????` addresses, escaped
+  source lines re-joined and condensed by `LineSymbolMap::new`); that part is exercised by the correspondence check: the
+  model's writer is compared byte for byte with the implementation's and both readers must return the original file.
   The theorems of the first paragraph are in Lemmas/C18Core.lean.
 -/
 import Lc3V.Lemmas.C18Core
 import Lc3V.Lemmas.TxtBlocks
+import Lc3V.Lemmas.TxtSym
 namespace Lc3V.C18
 open Lc3V Txt
 
 def obligations : List Lean.Name :=
   [``source_text_roundtrip, ``escaped_has_no_newline, ``decimal_field_roundtrip, ``Lc3V.Txt.unescape_escapeDefault,
    ``Lc3V.Txt.unescUnicode_hex, ``Lc3V.Txt.hexLower_spec, ``Lc3V.Txt.kept_lines, ``Lc3V.Txt.hex2u16_hex4,
-   ``Lc3V.Txt.readText_blocks, ``Lc3V.Txt.text_section_roundtrip]
+   ``Lc3V.Txt.readText_blocks, ``Lc3V.Txt.text_section_roundtrip,
+   ``Lc3V.Txt.splitN_seg, ``Lc3V.Txt.trim_pad, ``Lc3V.Txt.parseTable_rows, ``Lc3V.Txt.sortBy_perm, ``Lc3V.Txt.symFold,
+   ``Lc3V.Txt.idxFold, ``Lc3V.Txt.restore_src, ``Lc3V.Txt.kept_lines2, ``Lc3V.Txt.groupLines_groups, ``Lc3V.Txt.read_sym,
+   ``Lc3V.Txt.read_rel, ``Lc3V.Txt.read_dbg, ``Lc3V.Txt.sym_section_roundtrip]
 
 end Lc3V.C18
